@@ -494,3 +494,16 @@ Definition wblock_ok (b : wblock) : bool :=
   match wb_fevals b with Some d => all_digits d | None => true end &&
   match wb_sig b with Some ab => dec_ok ab | None => true end &&
   match wb_time b with Some ab => dec_ok ab && (List.length (dec_text ab) <? 9)%nat | None => true end.
+
+(* a NONMEM version pharmpy supports, written as plain dotted numbers (7.2.0 or later) *)
+Definition version_ok (v : text) : bool :=
+  match v with [] => false | _ :: _ => true end && forallb nonspace v &&
+  match dotted v [] with Some c => ge_720 c | None => false end &&
+  negb (text_eqb v $"V") && negb (text_eqb v $"VI").
+
+(* what a rendered file says about table number n: the last block with that number *)
+Definition expected_facts (bs : list wblock) (n : N) : lst_facts :=
+  match last_opt (filter (fun b => N.eqb (digits_val (wb_number b)) n) bs) with
+  | Some b => facts_of_wblock b
+  | None => mkFacts false None (Some false) None None
+  end.
